@@ -4,7 +4,7 @@
    flow mode off, string table disabled) of a tree whose root-level sibling chain is the given nodes.  It checks nothing.
 
    One case per input line:
-     flow  <langid> <W|X> <xmlgen> <pool> <op>;<op>;...
+     flow  <langid> <W|X> <xmlgen> <pool> <op>;<op>;...        (xmlgen + 10: ignore_empty_text and remove_text_blanks set)
      batch <langid> <W|X> <xmlgen> <pool> <i>,<i>,...
      header <langid> <W|X> <xmlgen>
    pool: detached nodes separated by '/', each in prefix form with '.'-separated tokens:
@@ -12,6 +12,7 @@
      l<namehex> ( node* )                             element with a literal tag
      x<texthex>                                       text node
      c ( x<hex>* )                                    CDATA node
+     t<langid> ( node )                               TREE node: an embedded document of that language (root = node)
    ops:  N<i>      wbxml_encoder_encode_node(pool[i])
          M<i>      wbxml_encoder_encode_node_with_elt_end(pool[i], FALSE)
          S<i>,<c>  wbxml_encoder_encode_raw_elt_start(pool[i], c)
@@ -55,6 +56,21 @@ static WBXMLTreeNode *parse_node_spec(const WBXMLLangEntry *lang) {
         size_t len; unsigned char *d = vh_unhex(t + 1, &len);
         n = wbxml_tree_node_create_text(d, (WB_ULONG) len);
         free(d);
+    } else if (t[0] == 't') {
+        /* an embedded document: TREE node owning a nested tree of language <id> whose root is the child */
+        int sublang = atoi(t + 1);
+        const WBXMLLangEntry *sl = wbxml_tables_get_table((WBXMLLanguage) sublang);
+        WBXMLTreeNode *root = NULL;
+        if (tpos < ntok && strcmp(tokv[tpos], "(") == 0) {
+            tpos++;
+            if (sl != NULL && tpos < ntok && strcmp(tokv[tpos], ")") != 0) root = parse_node_spec(sl);
+            while (tpos < ntok && strcmp(tokv[tpos], ")") != 0) tpos++;
+            if (tpos < ntok) tpos++;
+        }
+        if (root != NULL) {
+            n = wbxml_tree_node_create_tree(root, (WBXMLLanguage) sublang, WBXML_CHARSET_UNKNOWN);
+            if (n == NULL) wbxml_tree_node_destroy_all(root);
+        }
     } else if (t[0] == 'c') {
         n = wbxml_tree_node_create(WBXML_TREE_CDATA_NODE);
         parse_children(lang, n);
@@ -118,7 +134,11 @@ static WBXMLEncoder *make_encoder(int langid, char out, int xmlgen, int flow) {
     WBXMLEncoder *e = wbxml_encoder_create();
     wbxml_encoder_set_lang(e, (WBXMLLanguage) langid);
     wbxml_encoder_set_output_type(e, out == 'X' ? WBXML_ENCODER_OUTPUT_XML : WBXML_ENCODER_OUTPUT_WBXML);
-    wbxml_encoder_set_xml_gen_type(e, (WBXMLGenXMLType) xmlgen);
+    wbxml_encoder_set_xml_gen_type(e, (WBXMLGenXMLType) (xmlgen % 10));
+    if (xmlgen >= 10) {          /* 1x: blank text nodes are ignored, text is stripped (such nodes encode to nothing) */
+        wbxml_encoder_set_ignore_empty_text(e, TRUE);
+        wbxml_encoder_set_remove_text_blanks(e, TRUE);
+    }
     wbxml_encoder_set_indent(e, 2);
     wbxml_encoder_set_output_charset(e, WBXML_CHARSET_UTF_8);
     if (flow) wbxml_encoder_set_flow_mode(e, TRUE);
